@@ -1,7 +1,7 @@
 (** * C05 runner: point tests against stored loops / polygons with holes (primitive floats).
     The subject is given by its observable state (vertices, normal, closed flag), exactly as the
     crate holds it; every answer (Ok false / Ok true / Err class / panic) is compared. *)
-From G3 Require Import Run.Harness Model.Vec Model.Segment Model.Loop Model.Polygon Run.C04.
+From G3 Require Import Run.Harness Run.FastNum32 Model.Vec Model.Segment Model.Loop Model.Polygon Run.C04.
 
 Definition lstate := (list spec_float * list spec_float * bool)%type.
 Definition case := (bool * lstate * list lstate * list (list spec_float * N))%type.
@@ -56,4 +56,8 @@ End WithInstance.
 Module C05.
   Definition run := run_cases (@chk NumF).
 End C05.
+(** the f32 build (`--features float`): the same runner on the binary32 instance [NumF32fast] (= [NumF32], Run/FastNum32Proof.v) *)
+Module C05f32.
+  Definition run := run_cases (@chk NumF32fast).
+End C05f32.
 
